@@ -636,6 +636,9 @@ func specialHookArg(w *World, tm *Terms, fn *ssa.Function, fr *Frame, m string, 
 	case "BeforeAllowedBiddersAdded":
 		// the slice whose elements are written
 		for _, wv := range written {
+			for wv.Op == "upd" { // the element with its auction id normalised
+				wv = wv.Args[0]
+			}
 			if !(wv.Op == "elem" && wv.Args[0].Key() == at.Key()) {
 				return false, "the slice passed to the hook (" + at.String() + ") is not the slice whose elements are written (" + wv.String() + ")"
 			}
